@@ -37,47 +37,62 @@ def run(chk):
     chk.guard(r13_5_6_spacing, chk)
 
 
+def _frame_stores(chk):
+    from . import c14
+    w = c14.write_path_stores(chk)
+    return [s for s in w.stores if s.key.startswith("FrameItem.") and s.key.split(".")[1] in
+            ("index_min", "index_max", "spacing", "direction") and s.field in ("value", "units")]
+
+
 def r13_1_2_4(chk):
+    """All clauses are read off the semantic store inventory (sa/stores.py): every store into INDEX-MIN / INDEX-MAX /
+    SPACING / DIRECTION made by code reachable from DLISFile.write, with the value and the path condition rewritten into
+    the frame's own terms - whichever method or helper performs it."""
+    from ..terms import (SELF, NONE, A, K, ANY, Wild, match, contains, subterms, is_call, call_name, call_arg, pp,
+                         return_alternatives, alternatives)
     ix = chk.ix
     fr = ix.get_class("FrameItem")
-    f = fr.lookup("_setup_frame_params_from_data")
-    chk.consult(f)
-    rd = ReachingDefs(f)
-    calls = [n for n in walk_local(f.node) if isinstance(n, ast.Call) and isinstance(n.func, ast.Name)
-             and n.func.id == "assign_if_none"]
-    chk.floor("assign_if_none calls", len(calls), 7)
-    # R13.1: index_data = data[<first channel>.name][...]
-    defs = []
-    for n in walk_local(f.node):
-        if isinstance(n, ast.Assign) and any(isinstance(t, ast.Name) and t.id == "index_data" for t in n.targets):
-            defs.append(n)
-    ok = len(defs) == 1 and norm(defs[0].value).startswith("data[index_channel.name]")
-    chk.require(ok, "R13.1", "statistics-from-windowed-accessor",
-                f"the index statistics are computed from `{[norm(d.value) for d in defs]}`, not from the windowed accessor "
-                f"data[<index channel>.name]", f.where)
-    ic = [n for n in walk_local(f.node) if isinstance(n, (ast.Assign, ast.AnnAssign))
-          and "index_channel" in norm(n.targets[0] if isinstance(n, ast.Assign) else n.target)]
-    ok = len(ic) == 1 and norm(ic[0].value) == "self.channels.value[0]"
-    chk.require(ok, "R13.1", "index-channel-is-first-channel", "the index channel is not the frame's first channel", f.where)
-    acc = ix.get_method("SourceDataWrapper", "__getitem__")
-    chk.require("data[self._from_idx:self._to_idx]" in norm(acc.node), "R13.1", "accessor-applies-window",
-                "the accessor used for the statistics does not apply the row window", acc.where)
-    # R13.2: all stores to the four attributes go through assign_if_none
-    helper = f.nested.get("assign_if_none")
-    if helper is None:
-        raise AnalysisError("assign_if_none helper not found")
-    s = norm(helper.node)
-    chk.require("if getattr(attr, key) is None and value is not None" in s and "setattr(attr, key, value)" in s, "R13.2",
-                "helper-assigns-only-if-None", "the helper overwrites values that are already set", helper.where)
-    direct = []
-    for n in walk_local(f.node):
-        if isinstance(n, ast.Assign):
-            for t in n.targets:
-                if isinstance(t, ast.Attribute) and t.attr in ("value", "units") and any(
-                        w in norm(t.value) for w in ("index_min", "index_max", "spacing", "direction")):
-                    direct.append(n)
-    chk.require(not direct, "R13.2", "no-direct-stores", f"index metadata is stored directly: {[norm(d) for d in direct]}",
-                f.where)
+    stores = _frame_stores(chk)
+    chk.floor("write-path stores into the frame index attributes", len(stores), 8)
+    for s in stores:
+        chk.consult(s.func)
+    first = ("sub", A(SELF, "channels", "value"), K(0))
+    datas = {x for s in stores for x in subterms(s.value) if x[0] == "param" and x != SELF}
+    if len(datas) != 1:
+        raise AnalysisError(f"frame set-up: expected one data parameter feeding the index statistics, found {datas}")
+    data = next(iter(datas))
+    acc = ("sub", data, A(first, "name"))
+
+    def is_index_data(t):
+        return t == acc or (t[0] == "sub" and t[1] == acc and t[2] == ("slice", NONE, NONE, NONE))
+    # R13.1: every data-derived value is computed from data[<first channel>.name] (the windowed accessor), nothing else
+    for s in stores:
+        if not contains(s.value, data):
+            continue
+        roots = [x for x in subterms(s.value) if x[0] == "sub" and x[1] == data]
+        other = [x for x in subterms(s.value) if x == data]
+        ok = bool(roots) and all(r == acc for r in roots) and len(other) == len(roots)
+        chk.require(ok, "R13.1", f"statistics-from-windowed-accessor:{s.key}",
+                    f"{s.key} is computed from `{pp(s.value)[:80]}`, not only from the windowed accessor "
+                    f"data[<first channel of the frame>.name]", s.where)
+    from . import c11
+    acc_f = ix.get_method("SourceDataWrapper", "__getitem__")
+    gi = chk.summary(acc_f)
+    win = ("slice", A(SELF, "_from_idx"), A(SELF, "_to_idx"), NONE)
+    rets = [t for _, t, _ in gi.returns]
+    chk.require(bool(rets) and all(t[0] == "sub" and t[2] == win for t in rets), "R13.1", "accessor-applies-window",
+                "the accessor used for the statistics does not apply the row window", acc_f.where)
+    # R13.2: user values win - each store happens only where the target was found unset
+    seen = set()
+    for s in stores:
+        target = ("attr", s.base, s.field)
+        unset = [l for l in s.pc if l == ("cmp", "is", target, NONE)]
+        if (s.key, bool(unset)) in seen:
+            continue
+        seen.add((s.key, bool(unset)))
+        chk.require(bool(unset), "R13.2", f"only-if-None:{s.key}",
+                    f"{s.func.short} stores into {s.key} under {[pp(l)[:50] for l in s.pc]}: a value supplied by the user "
+                    f"is overwritten", s.where)
     from . import c05
     n0 = len(chk.obs)
     c05.r05_3_routing(chk)
@@ -86,59 +101,90 @@ def r13_1_2_4(chk):
         o.rule = "R13.2"
     chk.obs[n0:] = keep
     # R13.4
-    by_attr = {}
-    for c in calls:
-        by_attr.setdefault(norm(c.args[0]), []).append(c)
-    g = CFG(f.node)
-    noidx = [i for i in g.branch if "index_type" in norm(g.stmt[i].test) and "is None" in norm(g.stmt[i].test)]
-    if len(noidx) != 1:
-        raise AnalysisError("index-type test not found")
-    ifn = g.stmt[noidx[0]]
-    then_calls = [c for c in calls if any(x is c for b in ifn.body for x in ast.walk(b))]
-    else_calls = [c for c in calls if any(x is c for b in ifn.orelse for x in ast.walk(b))]
+    no_type = ("cmp", "is", A(SELF, "index_type", "value"), NONE)
+    has_type = ("cmp", "is not", A(SELF, "index_type", "value"), NONE)
 
-    def val_of(cs, attr):
-        vs = [norm(c.args[1]) if len(c.args) > 1 else norm([k.value for k in c.keywords if k.arg == "value"][0])
-              for c in cs if norm(c.args[0]) == attr and not any(k.arg == "key" for k in c.keywords)]
-        return vs
-    chk.require(val_of(then_calls, "self.index_min") == ["1"] and val_of(then_calls, "self.spacing") == ["1"], "R13.4",
-                "no-index-type:min=1,spacing=1", f"without index type INDEX-MIN / SPACING default to "
-                f"{val_of(then_calls, 'self.index_min')} / {val_of(then_calls, 'self.spacing')}", f.where)
-    mx = val_of(then_calls, "self.index_max")
-    chk.require(mx in (["index_data.shape[0]"], ["len(index_data)"]), "R13.4", "no-index-type:max=row-count",
-                f"without index type INDEX-MAX is `{mx}`; it must be the number of rows written (leading dimension), "
-                f"not e.g. the number of elements", f.where)
-    chk.require(val_of(else_calls, "self.index_min") == ["index_data.min()"]
-                and val_of(else_calls, "self.index_max") == ["index_data.max()"], "R13.4", "index-type:min/max-not-crossed",
-                f"INDEX-MIN / INDEX-MAX are taken from {val_of(else_calls, 'self.index_min')} / "
-                f"{val_of(else_calls, 'self.index_max')}", f.where)
-    sp = [i for i in g.branch if norm(g.stmt[i].test) == "spacing is None"]
-    ok = len(sp) == 1
-    if ok:
-        st = g.stmt[sp[0]]
-        dir_calls = [c for c in calls if norm(c.args[0]) == "self.direction"]
-        spc_calls = [c for c in else_calls if norm(c.args[0]) == "self.spacing" and not any(k.arg == "key"
-                                                                                        for k in c.keywords)]
-        ok = all(any(x is c for b in st.body for x in ast.walk(b)) for c in dir_calls) and bool(dir_calls) \
-            and all(any(x is c for b in st.orelse for x in ast.walk(b)) for c in spc_calls) and bool(spc_calls)
-        ok = ok and norm(dir_calls[0].args[1]) == "'INCREASING' if direction > 0 else 'DECREASING'"
-        ok = ok and norm(spc_calls[0].args[1]) == "spacing"
-    chk.require(ok, "R13.4", "spacing-xor-direction", "SPACING is not written exactly when the spacing is uniform and "
-                "DIRECTION (INCREASING for a positive sense) otherwise", f.where)
-    comp = fr.lookup("_compute_spacing_and_direction")
-    s = norm(comp.node)
-    chk.require("elif (diff_unique >= 0).all(): direction = True" in s.replace("\n", " ")
-                or "direction = True" in s and "(diff_unique >= 0).all()" in s, "R13.4", "direction-sense",
-                "the direction flag is not True for non-negative differences", comp.where)
-    call = [n for n in walk_local(f.node) if isinstance(n, ast.Call) and "_compute_spacing_and_direction" in norm(n.func)]
-    ok = len(call) == 1 and norm(call[0].args[0]) == "index_data"
-    tgt = [n for n in walk_local(f.node) if isinstance(n, ast.Assign) and n.value is (call[0] if call else None)]
-    ok = ok and len(tgt) == 1 and norm(tgt[0].targets[0]) == "(spacing, direction)"
-    chk.require(ok, "R13.4", "helper-results-not-crossed", "the (spacing, direction) results of the helper are crossed or "
-                "computed from other data", f.where)
-    rets = [norm(n.value) for n in walk_local(comp.node) if isinstance(n, ast.Return)]
-    chk.require(all(r.endswith(", direction)") or r.endswith(", direction") for r in rets) and len(rets) >= 3, "R13.4",
-                "helper-returns-(spacing,direction)", f"helper returns {rets}", comp.where)
+    def vals(key, lit):
+        return [s for s in stores if s.key == key and lit in s.pc]
+    a = vals("FrameItem.index_min.value", no_type)
+    b = vals("FrameItem.spacing.value", no_type)
+    chk.require(bool(a) and bool(b) and all(s.value == K(1) for s in a + b), "R13.4", "no-index-type:min=1,spacing=1",
+                f"without index type INDEX-MIN / SPACING default to {[pp(s.value) for s in a]} / "
+                f"{[pp(s.value) for s in b]}", fr.where)
+    mx = vals("FrameItem.index_max.value", no_type)
+
+    def row_count(t):
+        return (t[0] == "sub" and t[2] == K(0) and t[1][0] == "attr" and t[1][2] == "shape" and is_index_data(t[1][1])) \
+            or (is_call(t, "len", 1) and t[1] == ("global", "len") and is_index_data(t[2][0]))
+    chk.require(bool(mx) and all(row_count(s.value) for s in mx), "R13.4", "no-index-type:max=row-count",
+                f"without index type INDEX-MAX is `{[pp(s.value) for s in mx]}`; it must be the number of rows written "
+                f"(leading dimension of the windowed data), not e.g. the number of elements", fr.where)
+
+    def stat(t, name):
+        return (is_call(t, name, 0) and t[1][0] == "attr" and is_index_data(t[1][1])) or \
+            (is_call(t, name, 1) and t[1][0] == "global" and is_index_data(t[2][0])) or \
+            (is_call(t, "item", 0) and t[1][0] == "attr" and stat(t[1][1], name))
+    mn = vals("FrameItem.index_min.value", has_type)
+    mxx = vals("FrameItem.index_max.value", has_type)
+    chk.require(bool(mn) and bool(mxx) and all(stat(s.value, "min") for s in mn) and all(stat(s.value, "max") for s in mxx),
+                "R13.4", "index-type:min/max-not-crossed",
+                f"INDEX-MIN / INDEX-MAX are taken from {[pp(s.value)[:60] for s in mn]} / "
+                f"{[pp(s.value)[:60] for s in mxx]}", fr.where)
+    sp = vals("FrameItem.spacing.value", has_type)
+    dr = vals("FrameItem.direction.value", has_type)
+    ok = bool(sp) and bool(dr)
+    helper_call = None
+    for s in sp:
+        b_ = match(("sub", Wild("h", lambda t: t[0] == "call"), K(0)), s.value)
+        ok = ok and b_ is not None and ("cmp", "is not", s.value, NONE) in s.pc
+        if b_:
+            helper_call = b_["h"]
+    if helper_call is not None:
+        ok = ok and all(is_index_data(x) for x in helper_call[2]) and len(helper_call[2]) == 1
+        sense = ("sub", helper_call, K(1))
+        want = ("ite", ("cmp", ">", sense, K(0)), K("INCREASING"), K("DECREASING"))
+        alt = ("ite", sense, K("INCREASING"), K("DECREASING"))
+        for s in dr:
+            ok = ok and s.value in (want, alt) and ("cmp", "is", ("sub", helper_call, K(0)), NONE) in s.pc and \
+                ("cmp", "is not", sense, NONE) in s.pc
+    else:
+        ok = False
+    chk.require(ok, "R13.4", "spacing-xor-direction", "SPACING is not written exactly when the helper reports a uniform "
+                "spacing (its first result, computed from the index data), and DIRECTION ('INCREASING' for a positive "
+                "sense, only when a sense was determined) otherwise", fr.where)
+    if helper_call is None:
+        raise AnalysisError("spacing / direction helper call not found")
+    tg = [f for su in [chk.summary(s.func) for s in sp] for c, fs in su.calls.items() if call_name(c) == call_name(helper_call)
+          for f in fs]
+    if not tg:
+        tg = [fr.lookup(call_name(helper_call))]
+    comp = tg[0]
+    chk.consult(comp)
+    cs = chk.terms.inline(comp, 2)
+    sense_ok, n_alt = True, 0
+    for conds, t in return_alternatives(cs):
+        if t[0] != "tuple" or len(t[1]) != 2:
+            sense_ok = False
+            continue
+        for c2, d in alternatives(t[1][1]):
+            n_alt += 1
+            allc = tuple(conds) + tuple(c2)
+            nonneg = any(contains(l, lambda x: x[0] == "cmp" and x[1] in (">=", ">") and x[3] == K(0)) and l[0] != "not"
+                         for l in allc)
+            nonpos = any(contains(l, lambda x: x[0] == "cmp" and x[1] in ("<=", "<") and x[3] == K(0)) and l[0] != "not"
+                         for l in allc)
+            if d == K(True):
+                sense_ok = sense_ok and nonneg
+            elif d == K(False):
+                sense_ok = sense_ok and nonpos
+            elif d != NONE:
+                sense_ok = False
+    chk.require(sense_ok and n_alt >= 3, "R13.4", "direction-sense",
+                "the direction flag is not True exactly under `all differences >= 0` and False under `all <= 0`",
+                comp.where)
+    rets = [t for _, t in return_alternatives(cs)]
+    chk.require(len(rets) >= 3 and all(t[0] == "tuple" and len(t[1]) == 2 for t in rets), "R13.4",
+                "helper-returns-(spacing,direction)", f"helper returns {[pp(t)[:40] for t in rets[:4]]}", comp.where)
 
 
 def r13_3_stale(chk):
@@ -152,43 +198,52 @@ def r13_3_stale(chk):
 
 
 def r13_5_6_spacing(chk):
+    from ..terms import (K, NONE, contains, subterms, is_call, call_arg, pp, return_alternatives, alternatives, calls_in)
     ix = chk.ix
     comp = ix.get_method("FrameItem", "_compute_spacing_and_direction")
     chk.consult(comp)
-    rd = ReachingDefs(comp)
-    diffs = [n for n in walk_local(comp.node) if isinstance(n, ast.Call) and norm(n.func) in ("np.diff", "numpy.diff")]
-    subs = [n for n in walk_local(comp.node) if isinstance(n, ast.BinOp) and isinstance(n.op, ast.Sub)
-            and "index_data" in norm(n)]
+    cs = chk.terms.inline(comp, 2)
+    idx = ("param", comp.param_names[-1])
+    terms = [t for _, t in return_alternatives(cs)] + [l for c, _ in return_alternatives(cs) for l in c]
+    diffs = list(dict.fromkeys(c for t in terms for c in calls_in(t, "diff")))
+    subs = [x for t in terms for x in subterms(t) if x[0] == "bin" and x[1] == "-" and
+            contains(x[2], idx) and contains(x[3], idx)]
     chk.floor("difference operations on the index data", len(diffs) + len(subs), 1)
+    wide = ("np.int64", "np.float64", "float", "'int64'", "'float64'", "np.longdouble", "np.float128")
+
+    def widened(t):
+        return is_call(t, "astype") and t[1][0] == "attr" and pp(call_arg(t, 0, "dtype")) in wide
+
+    def integer_test(l):
+        return contains(l, lambda x: is_call(x, "issubdtype") and pp(call_arg(x, 1)) in ("np.integer", "numpy.integer"))
     for d in diffs:
-        at = rd.stmt_containing(d)
-        arg = d.args[0]
-        flows = rd.expand(arg, at)
-        widened = any(".astype(np.int64)" in fl or ".astype(np.float64)" in fl or ".astype(float)" in fl
-                      or "astype('int64')" in fl or "astype('float64')" in fl for fl in flows)
-        # the widening must be applied whenever the data are of integer type
-        guard_ok = False
-        for n in walk_local(comp.node):
-            if isinstance(n, ast.If) and "np.issubdtype(index_data.dtype" in norm(n.test) and \
-                    ("np.integer" in norm(n.test)) and any("astype" in norm(b) for b in n.body):
-                guard_ok = True
-        uncond = any(isinstance(n, ast.Assign) and "astype" in norm(n.value) and "index_data" in norm(n.targets[0])
-                     for n in comp.node.body)
-        chk.require(widened and (guard_ok or uncond), "R13.5", f"widened-before-diff:{norm(d)[:30]}",
+        arg = call_arg(d, 0)
+        ok = True
+        for conds, alt in alternatives(arg):
+            ok = ok and (widened(alt) or any(l[0] == "not" and integer_test(l) for l in conds))
+        chk.require(ok, "R13.5", f"widened-before-diff:{pp(d)[:30]}",
                     "np.diff keeps the dtype of its input: for unsigned or narrow integer index data the differences of a "
                     "decreasing index wrap around (uint8 [9, 7] -> 254); the data are not widened for every integer type "
-                    "before differencing", f"{comp.module.relpath}:{d.lineno}")
-    close = [n for n in walk_local(comp.node) if isinstance(n, ast.Call) and norm(n.func).split(".")[-1] in
-             ("allclose", "isclose")]
+                    "before differencing", comp.where)
+    for x in subs:
+        chk.fail("R13.5", f"widened-before-diff:{pp(x)[:30]}", "differences of the raw index data taken by subtraction "
+                 "without widening", comp.where)
+    close = list(dict.fromkeys(c for t in terms for c in calls_in(t) if is_call(c, ("allclose", "isclose"))))
     for c in close:
-        atol = [k for k in c.keywords if k.arg == "atol"]
-        ok = bool(atol) and try_const(atol[0].value) in (0, 0.0)
-        chk.require(ok, "R13.6", f"tolerance-purely-relative:{norm(c.func)}",
-                    f"`{norm(c)[:60]}` adds numpy's default absolute tolerance (1e-8): an index with steps of that order is "
-                    f"declared uniform however irregular it is", f"{comp.module.relpath}:{c.lineno}")
-    s = norm(comp.node)
-    chk.require(bool(close) or "(1 - diff_unique / median_diff) ** 2" in s and "< 0.001" in s, "R13.6",
-                "relative-tolerance-test-present", "the documented relative tolerance test (squared relative deviation "
-                "< 0.001) is gone", comp.where)
-    chk.require("if median_diff == 0" in s, "R13.6", "zero-median-guard", "division by a zero median is not guarded",
+        ok = call_arg(c, kw="atol") in (K(0), K(0.0))
+        chk.require(ok, "R13.6", f"tolerance-purely-relative:{pp(c[1])}",
+                    f"`{pp(c)[:60]}` adds numpy's default absolute tolerance (1e-8): an index with steps of that order is "
+                    f"declared uniform however irregular it is", comp.where)
+
+    def relative_test(l):
+        return contains(l, lambda x: x[0] == "cmp" and x[1] in ("<", "<=") and x[3][0] == "const"
+                        and isinstance(x[3][1], float) and contains(x[2], lambda y: y[0] == "bin" and y[1] == "/"))
+    uniform = [c for c, t in return_alternatives(cs) if t[0] == "tuple" and len(t[1]) == 2 and t[1][0] != NONE
+               and any(relative_test(l) and l[0] != "not" for l in c)]
+    chk.require(bool(close) or bool(uniform), "R13.6", "relative-tolerance-test-present",
+                "the documented relative tolerance test (squared relative deviation from the median < 0.001) no longer "
+                "decides when a non-constant spacing is reported", comp.where)
+    zero = [c for c, t in return_alternatives(cs) if t[0] == "tuple" and len(t[1]) == 2 and t[1][0] == NONE and
+            any(l[0] == "cmp" and l[1] == "==" and l[3] in (K(0), K(0.0)) for l in c)]
+    chk.require(bool(zero) or bool(close), "R13.6", "zero-median-guard", "division by a zero median is not guarded",
                 comp.where, nontrivial=False)
